@@ -37,12 +37,14 @@ pub struct Gen {
     pub async_ops:     bool,
     /// minimum number of consumers
     pub min_consumers: usize,
+    /// consumers may drop their stream themselves as soon as it answered end-of-stream (as an executor task does)
+    pub drop_on_end:   bool,
 }
 
 impl Default for Gen {
     fn default() -> Self {
         Gen { kinds: &UNI_KINDS, max_streams: &[1, 2, 4], buffers: &[2, 4, 8], max_producers: 3, max_ops: 3, max_consumers: 3, retry: false, fresh_wakers: false,
-              origins: false, prefill: false, canceller: false, churn: false, handles: false, async_ops: false, min_consumers: 1 }
+              origins: false, prefill: false, canceller: false, churn: false, handles: false, async_ops: false, min_consumers: 1, drop_on_end: false }
     }
 }
 
@@ -126,6 +128,7 @@ pub fn case_strategy(g: Gen) -> BoxedStrategy<ChanCase> {
             let fresh = if g.fresh_wakers { vec(0u8..5, 0..2).boxed() } else { Just(vec![]).boxed() };
             let churn = g.churn;
             let handles = g.handles;
+            let drop_on_end = g.drop_on_end;
             let consumer = (0u8..3, fresh, any::<u8>(), 1u8..4, any::<u8>()).prop_map(move |(hold, fresh_waker_at, c, n, h)| Consumer {
                 hold, fresh_waker_at,
                 create_late: churn && c % 3 == 1,
@@ -133,6 +136,7 @@ pub fn case_strategy(g: Gen) -> BoxedStrategy<ChanCase> {
                 clone_handle: handles && h & 1 == 1,
                 into_shared: handles && h & 2 == 2,
                 max_items: None,
+                drop_on_end: drop_on_end && h & 4 == 4,
             });
             let lo = g.min_consumers.min(m as usize).max(1);
             let hi = (m as usize).min(g.max_consumers).max(lo);
